@@ -45,10 +45,10 @@ registration (or by none)", for a given account of what an invocation stores -/
 def NoGhostWith (outs : List Desc → Desc → List (Nat × Key × Nat)) (reg : Registry) : Prop :=
   ∀ d ∈ reg, ∀ s ∈ outs reg d, (lookup reg (s.1, s.2.1)).map (·.ctor) = some d.ctor
 
-/-- with the repaired storing rule the clause holds for every registry -/
-theorem noGhost_repaired (reg : Registry) : NoGhostWith storeOutsRepaired reg := by
+/-- with the storing rule of the repaired `createInstance` the clause holds for every registry -/
+theorem noGhost_storeOuts (reg : Registry) : NoGhostWith storeOuts reg := by
   intro d _ s hs
-  unfold storeOutsRepaired at hs
+  unfold storeOuts at hs
   simp only [List.mem_filter, beq_iff_eq] at hs
   exact hs.2
 
